@@ -10,6 +10,8 @@
    flock is a modelled primitive: at most one holder, a Lock action is enabled only while nobody holds it, released by
    Unlock (close of the descriptor).  A DAG whose definition file cannot be opened is NOT locked by the code
    (lockSocket returns a no-op); every start / retry of the command line loads that file, so the model locks always.
+   F16b: since the definition file is REPLACED by a save (new inode), the lock is taken on a dedicated file next to the socket
+   address that is created on demand and never removed; assumption: nothing else removes or replaces that file.
    Executable definitions only - the proofs are in Proofs.v. *)
 From Coq Require Import List Bool Arith.
 Import ListNotations.
@@ -94,11 +96,13 @@ Definition answering (w : world) : bool :=
 Definition cur (w : world) (p : nat) : option act := nth_error program (pc (procs w p)).
 
 Inductive label :=
-| Do (p : nat).     (* p performs its next action *)
+| Do (p : nat)      (* p performs its next action *)
+| Save.             (* somebody saves the DAG definition (DAGStore.UpdateSpec: temp file + rename = a NEW inode at the path) *)
 
 (* None = the label is not enabled (the process has ended, or it waits for the lock) *)
 Definition step (l : label) (w : world) : option world :=
   match l with
+  | Save => Some w    (* F16b: the lock lives on a file of its own (<socket address>.lock) that no action replaces *)
   | Do p =>
       match cur w p with
       | None => None
@@ -130,7 +134,21 @@ Definition step (l : label) (w : world) : option world :=
       end
   end.
 
-Definition label_pid (l : label) : nat := match l with Do p => p end.
+Definition label_pid (l : label) : nat := match l with Do p => p | Save => 0 end.
+
+(* the protocol as of a924e5c, BEFORE F16b: the flock was taken on the DAG definition file itself, and a save gives that
+   path a new, unlocked inode - whoever locks next gets the lock at once although the old holder is still inside its
+   section.  (Only used to state what F16b repaired; the old holder's later unlock is not refined.) *)
+Definition step_a924 (l : label) (w : world) : option world :=
+  match l with
+  | Save => Some (set_lock w None)
+  | _ => step l w
+  end.
+Fixpoint run_a924 (sched : list label) (w : world) : option world :=
+  match sched with
+  | [] => Some w
+  | l :: r => match step_a924 l w with Some w' => run_a924 r w' | None => None end
+  end.
 
 Fixpoint run (sched : list label) (w : world) : option world :=
   match sched with
